@@ -17,6 +17,19 @@ class Family:
         self.quick = quick
         self.deep = deep                    # explored one level deeper in the thorough tier
         self.note = note
+        self.fs = None                      # client file-system mode of every description (None: default, key absent)
+
+    def with_fs(self, mode):
+        """The same family with `file-system: MODE` in the client section of every description; id `<family>@<mode>`."""
+        descs = []
+        for d in self.descs:
+            n = d.copy(d.id)
+            n.fs = mode
+            descs.append(n)
+        f = Family(self.id + "@" + mode, descs, list(self.sources), list(self.tamper), list(self.targets),
+                   dict(self.init), self.quick, self.note, self.deep)
+        f.fs = mode
+        return f
 
     def slots(self, appends=False):
         """Edit slots: list of (path, [events on that path])."""
@@ -303,6 +316,17 @@ def all_families():
           fam_phonyfile(), fam_dirchain(), fam_dirmulti(), fam_srcdir2(), fam_mkdirs(), fam_links(),
           fam_twoprod(), fam_selfgen(), fam_nodetype(), fam_virtchain(), fam_multi3(), fam_modout(), fam_default()]
     return fs
+
+
+FS_MODES = ("device-agnostic", "checksum-only")
+# families explored under the non-default file-system modes already in the quick tier: a plain chain, directory-tree
+# and directory-structure inputs, directory outputs, the mkdir and symlink tools
+FS_QUICK = ("chain", "dir", "tools", "srcdir2", "links", "mkdirs")
+
+
+def fs_families(only=None):
+    """Every family (or those named in ONLY) under each non-default client file-system mode."""
+    return [f.with_fs(m) for f in all_families() if only is None or f.id in only for m in FS_MODES]
 
 
 def families(tier):
